@@ -167,6 +167,351 @@ theorem c10f_nonvacuity :
 theorem exLevels_wf : wfLevels exLevels := by
   simp [exLevels, wfLevels, wfChain, prefixSums]
 
+/-! ### aggregates on the deepest level = the flat aggregates over the denoted rows -/
+
+theorem wfChain_append (pre : List Level) (l : Level) : ∀ n, wfChain n (pre ++ [l]) →
+    wfChain n pre ∧ l.mults.length = lastGc n pre ∧ l.groupCount = l.mults.sum ∧
+      (∀ d ∈ l.cols, d.length = l.groupCount) := by
+  induction pre with
+  | nil =>
+    intro n h
+    simp only [List.nil_append, wfChain] at h
+    obtain ⟨a, b, _, d, _⟩ := h
+    exact ⟨trivial, by simpa [lastGc] using a, b, d⟩
+  | cons p ps ih =>
+    intro n h
+    simp only [List.cons_append, wfChain] at h
+    obtain ⟨a, b, c, d, e⟩ := h
+    have := ih _ e
+    simp only [wfChain, lastGc]
+    exact ⟨⟨a, b, c, d, this.1⟩, this.2⟩
+
+theorem range_map_getElem_join (col : List (Option Int)) (n : Nat) (h : col.length = n) :
+    (List.range n).map (fun j => (col[j]?).join) = col := by
+  apply List.ext_getElem
+  · simp [h]
+  · intro i h1 h2
+    simp at h1
+    simp [List.getElem?_eq_getElem (show i < col.length by omega)]
+
+theorem valRows_col (l : Level) (ci : Nat) (col : List (Option Int)) (hc : l.cols[ci]? = some col)
+    (hl : col.length = l.groupCount) :
+    l.valRows.map (fun v => (v[ci]?).join) = col := by
+  simp only [Level.valRows, List.map_map]
+  rw [← range_map_getElem_join col l.groupCount hl]
+  apply List.map_congr_left
+  intro j _
+  simp [Level.rowAt, hc]
+
+/-- the values of deepest column `ci` along the denoted rows are that column, in order -/
+theorem denote_lastVals (l0 : Level) (rest : List Level) (hw : wfLevels (l0 :: rest)) (dl : Level)
+    (hd : (l0 :: rest).getLast? = some dl) (ci : Nat) (col : List (Option Int)) (hc : dl.cols[ci]? = some col) :
+    (denote (l0 :: rest)).map (lastVal ci) = col ∧ col.length = lastGc l0.groupCount rest := by
+  rcases List.eq_nil_or_concat rest with rfl | ⟨pre, l, rfl⟩
+  all_goals (try simp only [List.concat_eq_append] at *)
+  · simp at hd; subst hd
+    have hl : col.length = l0.groupCount := hw.1 col (List.mem_of_getElem? hc)
+    refine ⟨?_, by simpa [lastGc] using hl⟩
+    simp only [denote, denoteGen, List.foldl_nil, List.map_map]
+    rw [← valRows_col l0 ci col hc hl]
+    apply List.map_congr_left
+    intro v _
+    simp [lastVal]
+  · have hdl : l = dl := by
+      have : (l0 :: (pre ++ [l])).getLast? = some l := by
+        exact List.getLast?_eq_some_iff.mpr ⟨l0 :: pre, rfl⟩
+      rw [this] at hd; exact Option.some.inj hd
+    subst hdl
+    obtain ⟨h0, hch⟩ := hw
+    obtain ⟨hpre, hm, hg, hcols⟩ := wfChain_append pre l _ hch
+    have hl : col.length = l.groupCount := hcols col (List.mem_of_getElem? hc)
+    have hlast : lastGc l0.groupCount (pre ++ [l]) = l.groupCount := by
+      clear hd hch hpre hm h0
+      generalize l0.groupCount = n
+      induction pre generalizing n with
+      | nil => simp [lastGc]
+      | cons p ps ih => simpa [lastGc] using ih p.groupCount
+    refine ⟨?_, by rw [hlast]; exact hl⟩
+    have hrows : (denote (l0 :: pre)).length = l.mults.length := by
+      simp only [denote, denoteGen]
+      rw [fold_rows_length Level.valRows valRows_length pre l0.groupCount _ hpre (by simp [valRows_length]), hm]
+    simp only [denote] at hrows ⊢
+    rw [c10f_denote_snoc]
+    have hv : l.valRows.length = l.mults.sum := by rw [valRows_length, hg]
+    have key := expandGen_last (denoteGen Level.valRows (l0 :: pre)) l.mults l.valRows hrows hv
+    have : (expandGen (denoteGen Level.valRows (l0 :: pre)) l.mults l.valRows).map (lastVal ci) =
+        ((expandGen (denoteGen Level.valRows (l0 :: pre)) l.mults l.valRows).map List.getLast?).map
+          (fun o => match o with | some v => (v[ci]?).join | none => none) := by
+      simp only [List.map_map]
+      apply List.map_congr_left
+      intro r _
+      cases h : r.getLast? <;> simp [lastVal, h]
+    rw [this, key, List.map_map]
+    rw [← valRows_col l ci col hc hl]
+    apply List.map_congr_left
+    intro v _
+    simp
+
+theorem zipIdx_replicate_map {γ : Type} (n : Nat) (f : Nat × Nat → γ) :
+    (List.replicate n 1).zipIdx.map f = (List.range n).map (fun j => f (1, j)) := by
+  apply List.ext_getElem
+  · simp
+  · intro i h1 h2
+    simp at h1
+    simp
+
+theorem range_map_col {γ : Type} (col : List (Option Int)) (F : Nat → γ) (G : Option Int → γ)
+    (h : ∀ j (hj : j < col.length), F j = G col[j]) :
+    (List.range col.length).map F = col.map G := by
+  apply List.ext_getElem
+  · simp
+  · intro i h1 h2
+    simp at h1
+    simp [h i h1]
+
+theorem sum_skip_nulls (col : List (Option Int)) :
+    (col.map fun v => match v with | some x => x | none => (0 : Int)).sum = specSum col := by
+  induction col with
+  | nil => simp [specSum, nonNull]
+  | cons v vs ih => cases v <;> simp_all [specSum, nonNull]
+
+theorem count_skip_nulls (col : List (Option Int)) :
+    (col.map fun v => match v with | some _ => (1 : Int) | none => (0 : Int)).sum = specCountCol col := by
+  induction col with
+  | nil => simp [specCountCol, nonNull]
+  | cons v vs ih =>
+    cases v with
+    | none => simp_all [specCountCol, nonNull]
+    | some x => simp_all [specCountCol, nonNull]; omega
+
+/-- **SUM**: `sum_deepest` = the sum of the non-null values of that column over the denoted rows —
+for every well-formed chunk, nulls included -/
+theorem c10f_sum_eq (c : Chunk) (l0 : Level) (rest : List Level) (hl : c.levels = l0 :: rest)
+    (hw : wfLevels c.levels) (ci : Nat) (col : List (Option Int)) (hc : deepestCol c ci = some col) :
+    sumDeepest c ci = some (specSum ((denote c.levels).map (lastVal ci))) := by
+  unfold deepestCol at hc
+  cases hd : c.levels.getLast? with
+  | none => simp [hd] at hc
+  | some dl =>
+    simp only [hd] at hc
+    rw [hl] at hw hd
+    obtain ⟨hv, hlen⟩ := denote_lastVals l0 rest hw dl hd ci col hc
+    simp only [sumDeepest, deepestCol, hl, hd, hc, hv]
+    rw [c10f_pathMults_ones l0 rest hw, ← hlen, zipIdx_replicate_map,
+      range_map_col col _ (fun v => match v with | some x => x | none => (0 : Int))
+        (by intro j hj; simp only [List.getElem?_eq_getElem hj]; cases col[j] <;> simp),
+      sum_skip_nulls]
+
+/-- **COUNT(column)**: nulls included -/
+theorem c10f_countColumn_eq (c : Chunk) (l0 : Level) (rest : List Level) (hl : c.levels = l0 :: rest)
+    (hw : wfLevels c.levels) (ci : Nat) (col : List (Option Int)) (hc : deepestCol c ci = some col) :
+    countColumn c ci = specCountCol ((denote c.levels).map (lastVal ci)) := by
+  unfold deepestCol at hc
+  cases hd : c.levels.getLast? with
+  | none => simp [hd] at hc
+  | some dl =>
+    simp only [hd] at hc
+    rw [hl] at hw hd
+    obtain ⟨hv, hlen⟩ := denote_lastVals l0 rest hw dl hd ci col hc
+    simp only [countColumn, deepestCol, hl, hd, hc, hv]
+    rw [c10f_pathMults_ones l0 rest hw, ← hlen, zipIdx_replicate_map,
+      range_map_col col _ (fun v => match v with | some _ => (1 : Int) | none => (0 : Int))
+        (by intro j hj; simp only [List.getElem?_eq_getElem hj]; cases col[j] <;> simp),
+      count_skip_nulls]
+
+/-- the null-free fragment (decidable) -/
+def nullFree (col : List (Option Int)) : Bool := col.all Option.isSome
+
+theorem minFold_nullFree (col : List (Option Int)) (h : nullFree col = true) (a : Option Int) :
+    col.foldl (fun acc v => match acc with
+        | none => some v
+        | some cur => if valueLt v cur then some v else some cur) (a.map some) =
+      ((nonNull col).foldl (fun acc v => match acc with
+        | none => some v
+        | some a => if v < a then some v else some a) a).map some := by
+  induction col generalizing a with
+  | nil => simp [nonNull]
+  | cons v vs ih =>
+    simp only [nullFree, List.all_cons, Bool.and_eq_true] at h
+    cases v with
+    | none => simp at h
+    | some x =>
+      cases a with
+      | none => exact ih h.2 (some x)
+      | some a =>
+        have e1 : (if valueLt (some x) (some a) = true then some (some x) else some (some a)) =
+            (if x < a then some x else some a).map some := by
+          by_cases hx : x < a <;> simp [valueLt, hx]
+        have := ih h.2 (if x < a then some x else some a)
+        rw [← e1] at this
+        exact this
+
+theorem maxFold_nullFree (col : List (Option Int)) (h : nullFree col = true) (a : Option Int) :
+    col.foldl (fun acc v => match acc with
+        | none => some v
+        | some cur => if valueLt cur v then some v else some cur) (a.map some) =
+      ((nonNull col).foldl (fun acc v => match acc with
+        | none => some v
+        | some a => if a < v then some v else some a) a).map some := by
+  induction col generalizing a with
+  | nil => simp [nonNull]
+  | cons v vs ih =>
+    simp only [nullFree, List.all_cons, Bool.and_eq_true] at h
+    cases v with
+    | none => simp at h
+    | some x =>
+      cases a with
+      | none => exact ih h.2 (some x)
+      | some a =>
+        have e1 : (if valueLt (some a) (some x) = true then some (some x) else some (some a)) =
+            (if a < x then some x else some a).map some := by
+          by_cases hx : a < x <;> simp [valueLt, hx]
+        have := ih h.2 (if a < x then some x else some a)
+        rw [← e1] at this
+        exact this
+
+/-- **MIN / MAX** on the null-free fragment (with a null, MIN deviates: `c10f_min_null_witness`) -/
+theorem c10f_min_max_eq_partial (c : Chunk) (l0 : Level) (rest : List Level) (hl : c.levels = l0 :: rest)
+    (hw : wfLevels c.levels) (ci : Nat) (col : List (Option Int)) (hc : deepestCol c ci = some col)
+    (hn : nullFree col = true) :
+    minDeepest c ci = (specMin ((denote c.levels).map (lastVal ci))).map some ∧
+    maxDeepest c ci = (specMax ((denote c.levels).map (lastVal ci))).map some := by
+  have hc' := hc
+  unfold deepestCol at hc
+  cases hd : c.levels.getLast? with
+  | none => simp [hd] at hc
+  | some dl =>
+    simp only [hd] at hc
+    rw [hl] at hw hd
+    obtain ⟨hv, _⟩ := denote_lastVals l0 rest hw dl hd ci col hc
+    rw [← hl] at hv
+    simp only [minDeepest, maxDeepest, hc', hv, specMin, specMax]
+    exact ⟨minFold_nullFree col hn none, maxFold_nullFree col hn none⟩
+
+/-- **AVG** on the null-free fragment (with a null it deviates: `c10f_avg_null_witness`) -/
+theorem c10f_avg_eq_partial (c : Chunk) (l0 : Level) (rest : List Level) (hl : c.levels = l0 :: rest)
+    (hw : wfLevels c.levels) (hlrc : c.lrc = recompute c.levels) (ci : Nat) (col : List (Option Int))
+    (hc : deepestCol c ci = some col) (hn : nullFree col = true) :
+    avgDeepest c ci = specAvg ((denote c.levels).map (lastVal ci)) := by
+  have hs := c10f_sum_eq c l0 rest hl hw ci col hc
+  have hc' := hc
+  unfold deepestCol at hc
+  cases hd : c.levels.getLast? with
+  | none => simp [hd] at hc
+  | some dl =>
+    simp only [hd] at hc
+    have hw' := hw
+    rw [hl] at hw hd
+    obtain ⟨hv, hlen⟩ := denote_lastVals l0 rest hw dl hd ci col hc
+    rw [← hl] at hv
+    have hrows : c.lrc = col.length := by
+      rw [hlrc, c10f_lrc_eq_rows _ hw', ← hv]; simp
+    have hnn : (nonNull col).length = col.length := by
+      clear hv hlen hrows hs hc hc'
+      induction col with
+      | nil => simp [nonNull]
+      | cons v vs ih =>
+        simp only [nullFree, List.all_cons, Bool.and_eq_true] at hn
+        cases v with
+        | none => simp at hn
+        | some x => simp only [nonNull] at ih ⊢; simp [ih hn.2]
+    simp only [avgDeepest, hs, hv, specAvg, specSum, hrows]
+    by_cases he : col.length = 0
+    · have : nonNull col = [] := List.eq_nil_of_length_eq_zero (by omega)
+      simp [he, this]
+    · have : nonNull col ≠ [] := by intro h; rw [h] at hnn; simp at hnn; omega
+      simp [he, this, hnn]
+
+/-! ### the constructors build well-formed chunks -/
+
+theorem diffs_map_add (m : Nat) : ∀ xs : List Nat, diffs (xs.map (· + m)) = diffs xs
+  | [] => rfl
+  | [_] => rfl
+  | a :: b :: rest => by
+    have ih := diffs_map_add m (b :: rest)
+    simp only [List.map_cons] at ih ⊢
+    simp only [diffs, ih, Nat.add_lt_add_iff_right, Nat.add_sub_add_right]
+
+theorem prefixSums_cons_zero (ms : List Nat) : ∃ t, prefixSums ms = 0 :: t := by
+  cases ms <;> simp [prefixSums]
+
+theorem diffs_prefixSums : ∀ ms : List Nat, diffs (prefixSums ms) = some ms
+  | [] => rfl
+  | m :: ms => by
+    obtain ⟨t, ht⟩ := prefixSums_cons_zero ms
+    have ih := diffs_prefixSums ms
+    have h1 : diffs (m :: t.map (· + m)) = some ms := by
+      have := diffs_map_add m (0 :: t)
+      simp only [List.map_cons, Nat.zero_add] at this
+      rw [this, ← ht, ih]
+    simp only [prefixSums, ht, List.map_cons, Nat.zero_add]
+    simp [diffs, h1]
+
+theorem prefixSums_getLast : ∀ ms : List Nat, (prefixSums ms).getLast? = some ms.sum
+  | [] => rfl
+  | m :: ms => by
+    obtain ⟨t, ht⟩ := prefixSums_cons_zero ms
+    have ih := prefixSums_getLast ms
+    rw [ht] at ih
+    have h2 : (m :: t.map (· + m)) = (0 :: t).map (· + m) := by simp
+    simp only [prefixSums, ht, List.map_cons, Nat.zero_add, List.getLast?_cons_cons]
+    rw [h2, List.getLast?_map, ih]
+    simp [Nat.add_comm]
+
+theorem wfChain_snoc (pre : List Level) (l : Level) : ∀ n, wfChain n pre → l.mults.length = lastGc n pre →
+    l.groupCount = l.mults.sum → l.offs = some (prefixSums l.mults) →
+    (∀ d ∈ l.cols, d.length = l.groupCount) → wfChain n (pre ++ [l]) := by
+  induction pre with
+  | nil => intro n _ a b c d; exact ⟨by simpa [lastGc] using a, b, c, d, trivial⟩
+  | cons p ps ih =>
+    intro n h a b c d
+    obtain ⟨h1, h2, h3, h4, h5⟩ := h
+    exact ⟨h1, h2, h3, h4, ih _ h5 (by simpa [lastGc] using a) b c d⟩
+
+/-- **add_level keeps a chunk well-formed** (and never panics) when the offsets are the prefix sums
+of one fan-out per deepest value and the new columns have one value per child: every chunk built by
+`with_flat_level` and such `add_level` calls satisfies the hypothesis of the theorems above. -/
+theorem c10f_addLevel_wf (c : Chunk) (l0 : Level) (rest : List Level) (hl : c.levels = l0 :: rest)
+    (hw : wfLevels c.levels) (cols : List (List (Option Int))) (ms : List Nat)
+    (hm : ms.length = lastGc l0.groupCount rest) (hc : ∀ d ∈ cols, d.length = ms.sum) :
+    ∃ c', addLevel c cols (prefixSums ms) = some c' ∧ wfLevels c'.levels ∧
+      c'.lrc = recompute c'.levels ∧
+      c'.levels = c.levels ++ [{ cols := cols, offs := some (prefixSums ms), groupCount := ms.sum, mults := ms }] := by
+  have hany : (cols.any fun d => (prefixSums ms).isEmpty || (prefixSums ms).getLast? != some d.length) = false := by
+    rw [List.any_eq_false]
+    intro d hd
+    obtain ⟨t, ht⟩ := prefixSums_cons_zero ms
+    have hne : (prefixSums ms).isEmpty = false := by rw [ht]; rfl
+    simp [prefixSums_getLast, hc d hd, hne]
+  refine ⟨_, by simp only [addLevel, diffs_prefixSums, hany]; rfl, ?_, ?_, rfl⟩
+  · rw [hl] at hw ⊢
+    obtain ⟨h0, hch⟩ := hw
+    exact ⟨h0, wfChain_snoc rest _ _ hch hm rfl rfl hc⟩
+  · simp [hl]
+
+theorem withFlatLevel_wf (cols : List (List (Option Int))) (h : ∀ d ∈ cols, d.length = (cols.headD []).length) :
+    wfLevels (withFlatLevel cols).levels ∧ (withFlatLevel cols).lrc = recompute (withFlatLevel cols).levels := by
+  cases cols with
+  | nil => simp [withFlatLevel, wfLevels, wfChain, recompute, pathMults]
+  | cons d ds => simpa [withFlatLevel, wfLevels, wfChain, recompute, pathMults] using h
+
+/-- **one expansion step = the flat expand**, for every well-formed chunk: if deepest value `k` has
+the key `keys[k]` and the new level lists the children `ch keys[k]` consecutively (fan-outs
+`|ch keys[k]|`, zero included), the chunk with the new level denotes the `flatMap` of the old rows
+(row `k` is dropped when it has no child). By induction this covers chains of any length. -/
+theorem c10f_expand_step {γ : Type} (l0 : Level) (rest : List Level) (hw : wfLevels (l0 :: rest))
+    (keys : List γ) (ch : γ → List (List (Option Int))) (hk : keys.length = lastGc l0.groupCount rest)
+    (l : Level) (hm : l.mults = keys.map fun k => (ch k).length) (hv : l.valRows = keys.flatMap ch) :
+    denote (l0 :: (rest ++ [l])) =
+      ((denote (l0 :: rest)).zip keys).flatMap fun p => (ch p.2).map fun v => p.1 ++ [v] := by
+  obtain ⟨_, hch⟩ := hw
+  have hrows : (denote (l0 :: rest)).length = keys.length := by
+    simp only [denote, denoteGen]
+    rw [fold_rows_length Level.valRows valRows_length rest l0.groupCount _ hch (by simp [valRows_length]), hk]
+  simp only [denote] at hrows ⊢
+  rw [c10f_denote_snoc, hm, hv]
+  exact expandGen_flatMap ch _ keys hrows
+
 /-! ### deviations of the aggregates when the deepest column holds nulls (library level: the planner
 only aggregates the never-null `_target` column) -/
 
@@ -185,5 +530,11 @@ the first expansion step alone (`FactorizedExpandOperator`) keeps the unexpanded
 theorem c10f_chain_empty_hop_witness :
     (match chain (fun _ => []) [some 0, some 1] 1 with | .noResult => true | _ => false) = true ∧
     flatChain (fun _ => []) [some 0, some 1] 1 = [] := by decide
+
+/-- witness (reachable from query text): stored type `T0`, pattern `-[:t0]->…-[:t0]->`: the flat
+plan matches both hops ignoring ASCII case, the factorized chain compares the second hop exactly -/
+theorem c10f_edge_type_case_witness :
+    qcaseRows 3 [(0, 1), (1, 2)] true false 2 = [] ∧
+    qcaseRows 3 [(0, 1), (1, 2)] true true 2 = [(0, 2)] := by decide
 
 end Grafeo.Fact
